@@ -25,6 +25,7 @@ def check(repo, tier="quick"):
     res.rule("C06.a", "no length argument of nbits/uint_lit/bitarray/bytes can be negative (the reader reads nothing, the writer raises)")
     res.rule("C06.b", "control flow and lengths never depend on the direction (serdes class, io object, context contents), except the documented parse_stream loop")
     res.rule("C06.c", "description-program targets = declared entries per context type; every bitstream value has a default of the primitive's type; nesting table agrees")
+    res.rule("C06.h", "history independence: the description program, the serdes framework and the bit-level I/O keep no state between streams; no swapped same-named arguments")
     res.rule("C06.x", "extracted reader/writer asymmetry on negative lengths (the premise of C06.a)")
 
     sm = SerdesModel(repo)
@@ -32,6 +33,11 @@ def check(repo, tier="quick"):
     rule_a(repo, res, sm)
     rule_b(repo, res, sm)
     rule_c(repo, res, sm)
+    from .. import globals_state, lints
+
+    globals_state.rule(repo, res, "C06.h", ["bitstream.vc2", "bitstream.serdes", "bitstream.io", "bitstream.vc2_fixeddicts", "fixeddict", "pseudocode.slice_sizes"], what="the bytes written for one stream (a second round trip in the same process could differ from the first)")
+    lints.rule(repo, res, "C06.h", ["bitstream.vc2", "bitstream.serdes", "bitstream.io"])
+    res.floor("C06.h", 8)
     res.floor("C06.a", 10)
     res.floor("C06.b", 30)
     res.floor("C06.c", 100)
